@@ -76,9 +76,22 @@ def literal(e):
                             (ast.Eq, 0): False, (ast.LtE, 0): False, (ast.Lt, 1): False}.get(key)
                 if nonempty is not None:
                     return ast.unparse(a), nonempty
+        # symmetric comparisons: the constant (else the textually larger operand) goes right
+        if isinstance(op, (ast.Eq, ast.NotEq, ast.Is, ast.IsNot)):
+            def _c(x):
+                return isinstance(x, ast.Constant) or (isinstance(x, ast.UnaryOp) and isinstance(x.operand, ast.Constant))
+            lc, rc = _c(l), _c(r)
+            if (lc and not rc) or (lc == rc and ast.unparse(l) > ast.unparse(r)):
+                l, r = r, l
+        elif isinstance(l, ast.Constant) and not isinstance(r, ast.Constant) and \
+                isinstance(op, (ast.Lt, ast.Gt, ast.LtE, ast.GtE)):
+            l, r = r, l
+            op = {ast.Lt: ast.Gt, ast.Gt: ast.Lt, ast.LtE: ast.GtE, ast.GtE: ast.LtE}[type(op)]()
         if type(op) in _FLIPPOS:
             pos = ast.Compare(left=l, ops=[_FLIPPOS[type(op)]()], comparators=[r])
             return ast.unparse(pos), False
+        if isinstance(op, (ast.Eq, ast.Is, ast.In)):
+            return ast.unparse(ast.Compare(left=l, ops=[op], comparators=[r])), True
         if isinstance(op, ast.Gt):
             return ast.unparse(ast.Compare(left=r, ops=[ast.Lt()], comparators=[l])), True
         if isinstance(op, ast.GtE):
@@ -111,6 +124,19 @@ def clauses(test, truth):
                 return set()
             combos = [c | q for c in combos for q in p]
         return {c for c in combos if len(c) <= 5 and not any((a, not pol) in c for a, pol in c)}
+    # x in ('U', 'L') / x not in [..]: a disjunction of equalities (conjunction of inequalities)
+    if isinstance(test, ast.Compare) and len(test.ops) == 1 and isinstance(test.ops[0], (ast.In, ast.NotIn)) and \
+            isinstance(test.comparators[0], (ast.Tuple, ast.List, ast.Set)) and \
+            1 <= len(test.comparators[0].elts) <= 5 and \
+            all(isinstance(e, ast.Constant) for e in test.comparators[0].elts):
+        member = isinstance(test.ops[0], ast.In) == truth
+        eqs = [literal(ast.Compare(left=test.left, ops=[ast.Eq()], comparators=[e]))[0]
+               for e in test.comparators[0].elts]
+        a, p = literal(test)
+        whole = frozenset({(a, p if truth else not p)})
+        if member:
+            return {whole, frozenset((q, True) for q in eqs)}
+        return {whole} | {frozenset({(q, False)}) for q in eqs}
     a, p = literal(test)
     return {frozenset({(a, p if truth else not p)})}
 
@@ -193,16 +219,17 @@ def clauses_of(state):
     return [f[1] for f in (state or ()) if isinstance(f, tuple) and f and f[0] == 'cl']
 
 
-def _kill(state, stored_names, stored_attrs):
-    """drop the clauses that talk about a name / attribute that has just been re-bound"""
-    if state is None or (not stored_names and not stored_attrs):
+def _kill(state, stored_names, stored_paths):
+    """drop the clauses that talk about a name that has just been re-bound or about an attribute /
+    element path that has just been stored to (`self.sign = ..` kills facts about self.sign and
+    self.sign.x, not about obj.sign)"""
+    if state is None or (not stored_names and not stored_paths):
         return state
     out = set()
     for f in state:
         if isinstance(f, tuple) and f and f[0] == 'cl':
-            txts = [a for a, _p in f[1]]
             dead = False
-            for t in txts:
+            for t, _p in f[1]:
                 try:
                     tree = ast.parse(t, mode='eval')
                 except SyntaxError:
@@ -210,8 +237,10 @@ def _kill(state, stored_names, stored_attrs):
                 for n in ast.walk(tree):
                     if isinstance(n, ast.Name) and n.id in stored_names:
                         dead = True
-                    if isinstance(n, ast.Attribute) and n.attr in stored_attrs:
-                        dead = True
+                    elif isinstance(n, (ast.Attribute, ast.Subscript)) and stored_paths:
+                        txt = ast.unparse(n)
+                        if any(txt == sp or txt.startswith(sp + '.') or txt.startswith(sp + '[') for sp in stored_paths):
+                            dead = True
             if dead:
                 continue
         out.add(f)
@@ -312,21 +341,28 @@ class MustFlow:
         self.visit(expr, state)
         out = self.transfer(expr, state)
         if isinstance(expr, (ast.Assign, ast.AugAssign, ast.AnnAssign, ast.Delete)) and out is not None:
-            names, attrs = set(), set()
+            names, paths = set(), set()
             tgts = expr.targets if isinstance(expr, (ast.Assign, ast.Delete)) else [expr.target]
+
+            def _tg(t):
+                if isinstance(t, (ast.Tuple, ast.List)):
+                    for e in t.elts:
+                        _tg(e)
+                elif isinstance(t, ast.Starred):
+                    _tg(t.value)
+                elif isinstance(t, ast.Name):
+                    names.add(t.id)
+                elif isinstance(t, ast.Attribute):
+                    paths.add(ast.unparse(t))
+                elif isinstance(t, ast.Subscript):
+                    # an element store changes the container (x[i] = v: facts about x / x[..] / x.any())
+                    if isinstance(t.value, ast.Name):
+                        names.add(t.value.id)
+                    else:
+                        paths.add(ast.unparse(t.value))
             for t in tgts:
-                for n in ast.walk(t):
-                    if isinstance(n, ast.Name) and isinstance(n.ctx, (ast.Store, ast.Del)):
-                        names.add(n.id)
-                    elif isinstance(n, ast.Attribute) and isinstance(n.ctx, (ast.Store, ast.Del)):
-                        attrs.add(n.attr)
-                    elif isinstance(n, ast.Subscript) and isinstance(n.ctx, (ast.Store, ast.Del)):
-                        for m in ast.walk(n.value):
-                            if isinstance(m, ast.Name):
-                                names.add(m.id)
-                            elif isinstance(m, ast.Attribute):
-                                attrs.add(m.attr)
-            out = _kill(out, names, attrs)
+                _tg(t)
+            out = _kill(out, names, paths)
             # an alias  x = <name / attribute path>: x is truthy (is None) exactly when the path is
             if isinstance(expr, ast.Assign) and len(expr.targets) == 1 and isinstance(expr.targets[0], ast.Name) \
                     and _is_ref(expr.value) and ast.unparse(expr.value) != expr.targets[0].id:
@@ -434,6 +470,11 @@ class MustFlow:
         result.raises += body.raises
         if isinstance(st, ast.While) and isinstance(st.test, ast.Constant) and st.test.value is True:
             exit_state = None
+        if is_for and isinstance(st.iter, (ast.Tuple, ast.List)) and st.iter.elts and \
+                not any(isinstance(e, ast.Starred) for e in st.iter.elts):
+            # a loop over a non-empty display runs its body at least once: the loop is left through the
+            # end of the body (or a break), never from the state before it
+            exit_state = join(body.normal, *[s for s, _ in body.continues])
         els = self.walk(st.orelse, exit_state) if st.orelse else Outcome(exit_state)
         result.absorb(els)
         result.normal = join(els.normal, *[s for s, _ in body.breaks])
